@@ -143,6 +143,7 @@ type vpWorld struct {
 
 	multiIPKeys map[string]bool // keys of pods that were bound with two or more IPs
 	allowRestart bool           // scenario option: housekeeping may restart galaxy-ipam
+	reserveStale bool           // C03: an unbind decided on a deployment the informer cache had not caught up with (known finding)
 
 	lateEventActive bool // an event of an earlier incarnation is being handled while a same-named live pod with another UID exists
 	lateEventSeen   bool // ... has happened at some point of this history
